@@ -365,6 +365,7 @@ static void mon_server_state(const char *server, int success, int flags)
 {
   int si = srv_from_string(server);
   sim_note(success ? "server_state_success" : "server_state_failure");
+  vh_trace("server_state srv %d (%s) %s flags %d", si, server, success ? "SUCCESS" : "FAILURE", flags);
   if (ss_n < SS_MAX) {
     ss_ev[ss_n].t       = sim_now_us;
     ss_ev[ss_n].srv     = si;
